@@ -1717,7 +1717,18 @@ def b_len(eng: Engine, st, args, kw):
     if isinstance(v, VTuple):
         return [(st, VInt(z3.IntVal(len(v.items))))]
     if isinstance(v, VList):
-        return [(st, VInt(z3.IntVal(len(st.heap[v.addr].items))))]
+        total = z3.IntVal(0)
+        for x in st.heap[v.addr].items:
+            seg = getattr(x, "seg", None)            # a segment stored by vc/pyvc/seqs.py (symbolic number of elements)
+            if seg is None:
+                total = total + 1
+            elif seg[0] == "one":
+                total = total + 1
+            elif seg[0] == "range" and not isinstance(seg[4], list):
+                total = total + z3.If(seg[2] >= seg[1], seg[2] - seg[1], 0)
+            else:
+                raise Undecided("len of a list with conditional / nested segments")
+        return [(st, VInt(z3.simplify(total)))]
     if isinstance(v, VStr):
         return [(st, VInt(z3.Length(v.z)))]
     hook = eng.contracts.get("builtin:len")
